@@ -64,11 +64,13 @@ func (q ReachQ) Run() ReachResult {
 	}
 	pathTo := func(n node) []*ssa.BasicBlock {
 		var p []*ssa.BasicBlock
+		onPath := map[node]bool{}
 		for x, ok := n, true; ok; x, ok = parent[x], hasParent[x] {
-			p = append([]*ssa.BasicBlock{x.b}, p...)
-			if len(p) > 4*len(q.Fn.Blocks)+1 {
-				break
+			if onPath[x] {
+				break // the start block was re-entered through a loop
 			}
+			onPath[x] = true
+			p = append([]*ssa.BasicBlock{x.b}, p...)
 		}
 		return p
 	}
